@@ -74,7 +74,7 @@ def run(chk, repo, tier):
             uses = any(self_attr(n) in (locks | fields) for n in walk_no_nested(f.node))
             if not uses:
                 continue
-            lf = LockFlow(f.node, locks)
+            lf = LockFlow(f.node, locks, fields)
             flows[f.fq] = lf
             cfg = lf.cfg
             # ---- L1
@@ -94,12 +94,9 @@ def run(chk, repo, tier):
                                           'exit keeps the lock forever: the next request on the same path hangs',
                                   line=f.node.lineno)
             # ---- L3
-            incs = [n for n in cfg.nodes.values() if isinstance(n.ast, ast.AugAssign)
-                    and isinstance(n.ast.op, ast.Add) and isinstance(n.ast.target, ast.Subscript)
-                    and self_attr(n.ast.target.value) in fields]
-            decs = [n for n in cfg.nodes.values() if isinstance(n.ast, ast.AugAssign)
-                    and isinstance(n.ast.op, ast.Sub) and isinstance(n.ast.target, ast.Subscript)
-                    and self_attr(n.ast.target.value) in fields]
+            # counter updates as the flow analysis resolved them (self.F[k] += 1, or through a local alias of self.F)
+            incs = [cfg.nodes[i] for i, cu in lf.counter_nodes.items() if cu[0] == 'inc' and cu[1] in fields]
+            decs = [cfg.nodes[i] for i, cu in lf.counter_nodes.items() if cu[0] == 'dec' and cu[1] in fields]
             if incs or decs:
                 chk.instance(L3, f'{f.qualname}: {len({unparse(n.ast) for n in incs})} increments / '
                                  f'{len({unparse(n.ast) for n in decs})} decrements')
@@ -139,7 +136,7 @@ def run(chk, repo, tier):
                     expr = n.ast.iter
                 if isinstance(expr, (ast.FunctionDef, ast.ClassDef)):
                     continue
-                touched = {self_attr(x) for x in [expr, *walk_no_nested(expr)]} & fields
+                touched = lf.fields_touched(n.id, expr) if isinstance(expr, ast.AST) else set()
                 calls = {dotted(x.func) for x in [expr, *walk_no_nested(expr)] if isinstance(x, ast.Call)}
                 if calls & {'_process_level_lock', '_process_level_unlock'}:
                     touched.add('<process-level lock call>')
@@ -184,20 +181,30 @@ def run(chk, repo, tier):
     for c, wf, loop, lk in wait_sites:
         locks = class_lock_attrs(c)
         fields = class_guarded_fields(c, locks)
-        pred_fields = {self_attr(x) for x in ast.walk(loop.test)} & fields
-        waiter_local = bool(names_in(loop.test) - {'self'})
+        # the predicate may be a closure defined in the method (`def others_hold(): return bool(self.F - mine)`)
+        from sa import reach
+        pred = loop.test
+        loc = reach.local_callables(wf.node)
+        if isinstance(pred, ast.Call) and isinstance(pred.func, ast.Name) and pred.func.id in loc and not pred.args:
+            body = loc[pred.func.id]
+            rets = [r.value for r in ast.walk(body) if isinstance(r, ast.Return) and r.value is not None] \
+                if not isinstance(body, ast.Lambda) else [body.body]
+            if len(rets) == 1:
+                pred = rets[0]
+        pred_fields = {self_attr(x) for x in ast.walk(pred)} & fields
+        waiter_local = bool(names_in(pred) - {'self', 'bool', 'len', 'any', 'all'})
         for name, f in c.methods.items():
             lf = flows.get(f.fq)
             if lf is None:
                 continue
             cfg = lf.cfg
             removals = [n for n in cfg.nodes.values() if isinstance(n.ast, ast.Delete)
-                        and any(isinstance(t, ast.Subscript) and self_attr(t.value) in pred_fields
+                        and any(isinstance(t, ast.Subscript) and lf.fields_touched(n.id, t.value) & pred_fields
                                 for t in n.ast.targets)]
             removals += [n for n in cfg.nodes.values() if isinstance(n.ast, ast.Expr)
                          and isinstance(n.ast.value, ast.Call) and isinstance(n.ast.value.func, ast.Attribute)
                          and n.ast.value.func.attr in ('pop', 'clear', 'popitem')
-                         and self_attr(n.ast.value.func.value) in pred_fields]
+                         and lf.fields_touched(n.id, n.ast.value.func.value) & pred_fields]
             if not removals:
                 continue
             ys = lf.yields()
@@ -220,8 +227,11 @@ def run(chk, repo, tier):
                     # reachable from the removal (advisory precision: not exercised on today's tree)
                     ok = bool(cfg.reachable(d.id) & notifies)
                 else:
-                    reach = cfg.reachable(d.id, avoid=notifies, edge_ok=lf.edge_ok)
-                    ok = not (reach & releases)
+                    # flag-sensitive: a release is bad when some state arriving there still carries the removal
+                    # (the fact is set at the removal and cleared by notify_all; flag tests prune infeasible paths)
+                    reach_ = cfg.reachable(d.id, avoid=notifies, edge_ok=lf.edge_ok)
+                    ok = not any(('removed', fld) in st_ for r in (reach_ & releases) for st_ in lf.at(r)
+                                 for fld in pred_fields)
                 if not ok:
                     bad = None
                     for r in sorted(releases):
@@ -245,6 +255,10 @@ def run(chk, repo, tier):
             for a in n.args[2:4]:
                 for x in ast.walk(a):
                     pool_ctor_args.add(id(x))
+                # a named module-level function handed over as factory / destructor is the same as a lambda
+                if isinstance(a, ast.Name) and a.id in m.functions and m.functions[a.id].cls is None:
+                    for x in ast.walk(m.functions[a.id].node):
+                        pool_ctor_args.add(id(x))
     n_oc = 0
     for n in ast.walk(m.tree):
         if isinstance(n, ast.Call) and dotted(n.func) in ('os.open', 'os.close', 'open', 'os.fdopen', 'os.dup',
@@ -283,7 +297,16 @@ def run(chk, repo, tier):
         if _is_eq1(e) or (isinstance(e, ast.Name) and e.id in eq1_flags):
             return True
         return isinstance(e, ast.BoolOp) and isinstance(e.op, ast.And) and any(_guards_last(v) for v in e.values)
-    tests = [n for n in cfg.nodes.values() if n.kind == 'test' and _guards_last(n.ast)]
+    from sa import guards as G_
+
+    def last_ref(e):
+        # atom "the refcount is 1": `refcount == 1` / a flag bound to it asserts it, `refcount != 1` denies it
+        if _is_eq1(e) or (isinstance(e, ast.Name) and e.id in eq1_flags):
+            return True
+        if isinstance(e, ast.Compare) and len(e.ops) == 1 and isinstance(e.ops[0], ast.NotEq) \
+                and any(isinstance(x, ast.Constant) and x.value == 1 for x in [e.left, *e.comparators]):
+            return False
+        return None
     for n in destr + dels:
         chk.instance(L6, f'__call__: {n.text()} guarded by refcount == 1 under pool lock')
         if not lf.must_hold(n.id, '_lock'):
@@ -291,7 +314,7 @@ def run(chk, repo, tier):
                           'pool entry destroyed without the pool lock', line=n.line,
                           witness='a concurrent request for the same key observes/creates an entry while it is '
                                   'being closed')
-        if not any(cfg.edge_dominates(t.id, 'true', n.id) for t in tests):
+        if not G_.guarded(cfg, n.id, last_ref):
             chk.violation(L6, rel, pf.qualname, n.text() + ' not guarded by refcount == 1',
                           'the pooled object is destroyed while other users may still reference it (or never)',
                           line=n.line,
@@ -393,6 +416,11 @@ def run(chk, repo, tier):
             d = latest_def(e.id, at)
             if d is not None:
                 return ev(d.ast.value, env, d.id, depth + 1)
+            # unique reaching definition, also through tuple unpacking (`a, b = bool(self.F), bool(self.G)`)
+            from sa import reach as reach_
+            x = reach_.expand_expr(cfg, at, e)
+            if not (isinstance(x, ast.Name) and x.id == e.id):
+                return ev(x, env, at, depth + 6)
         return None
     import itertools
     for u in unlocks:
